@@ -45,6 +45,7 @@ type URep struct {
 	Pkt     *OutPkt
 	Msg     *PMsg
 	Sess    *MSess
+	Cands   []*MSess // sessions the wire content could belong to (same CP SEID and peer)
 	URRID   uint32
 	Seqn    uint32
 	Trigger uint32
@@ -162,13 +163,16 @@ func (s *Sim) collectUReps(ctx *StepCtx) []*URep {
 			continue
 		}
 		var x *MSess
+		var cands []*MSess
 		if carrier == "srr" {
 			for _, up := range m.liveSEIDs() {
 				c := m.sess[up]
 				if c.CP == pm.SEID && c.Node+":8805" == o.Dst {
-					x = c
-					break
+					cands = append(cands, c)
 				}
+			}
+			if len(cands) == 1 {
+				x = cands[0]
 			}
 		} else {
 			x = ctx.Target
@@ -179,7 +183,7 @@ func (s *Sim) collectUReps(ctx *StepCtx) []*URep {
 				s.violateAny([]string{"C10", "C11", "C12"}, "report.wellformed", "report:malformed", "malformed usage report in %s: %v (% x)", carrier, err, t.V)
 				continue
 			}
-			u.Carrier, u.Pkt, u.Msg, u.Sess = carrier, o, pm, x
+			u.Carrier, u.Pkt, u.Msg, u.Sess, u.Cands = carrier, o, pm, x, cands
 			out = append(out, u)
 		}
 	}
@@ -191,6 +195,9 @@ func (s *Sim) checkReports(ctx *StepCtx) {
 		return
 	}
 	if s.cfg.Profile == "C15" && s.model.perioTaint {
+		return
+	}
+	if s.stopped1 {
 		return
 	}
 	ureps := s.collectUReps(ctx)
@@ -314,6 +321,17 @@ func (s *Sim) checkC10(ctx *StepCtx, ureps []*URep) {
 			}
 			if u.Sess != nil && e.x != u.Sess {
 				continue
+			}
+			if u.Sess == nil && len(u.Cands) > 0 {
+				in := false
+				for _, c := range u.Cands {
+					if c == e.x {
+						in = true
+					}
+				}
+				if !in {
+					continue
+				}
 			}
 			if u.HasTime && (u.Start != uint32(e.k.Start.Unix()+ntpOffset) || u.End != uint32(e.k.End.Unix()+ntpOffset)) {
 				continue
